@@ -71,7 +71,16 @@ def _central_difference(src):
     lets, final = translate_body(body, {'coord': 'V', 'shift': 'K', 'δ': 'V'},
                                  calls={'fxn': (['V'], 'K', 'fxn')}, result_type='K')
     b = '\n'.join('  ' + l for l in lets + [final])
-    return ('/-- component `i` of `central_difference`; `δ` is the vector built by the loop body\n'
+    argnames = [a.arg for a in fn.args.args]
+    if argnames != ['fxn', 'coord', 'shift'] or len(fn.args.defaults) != 1 or fn.args.kwarg or fn.args.vararg:
+        raise TranslationError(f'central_difference: unexpected signature {argnames}')
+    dflt = fn.args.defaults[0]
+    if not (isinstance(dflt, ast.Constant) and isinstance(dflt.value, (int, float)) and dflt.value > 0):
+        raise TranslationError('central_difference: default shift is not a positive literal')
+    default = ('/-- default of the `shift` parameter of `central_difference` (decimal literal of the source). -/\n'
+               f'def cdDefaultShift {{K : Type}} [Div K] [Neg K] [NatCast K] : K := {lit(Fraction(ast.unparse(dflt)))}\n\n')
+    return (default +
+            '/-- component `i` of `central_difference`; `δ` is the vector built by the loop body\n'
             '    (`δ = zeros; δ[i] = shift`, i.e. `shift • eᵢ`). -/\n'
             f'def cdComponent {{V K : Type}} {CLS}\n'
             f'    (fxn : V → K) (coord δ : V) (shift : K) : K :=\n{b}\n')
@@ -126,6 +135,1054 @@ def translate():
     parts.append(_rates(cm.source('atomman/mep/ISMPath.py')))
     parts.append('end Atomman.Gen\n')
     return {'Integrators': '\n'.join(parts)}
+
+
+# ----------------------------------------------------------------------------------------
+# shared: polynomial test energies (exact oracle), path objects driven as a state machine
+# ----------------------------------------------------------------------------------------
+EPS = 2.0 ** -52
+
+
+def _fl(x):
+    """float of an exact value; values beyond the double range become +-inf."""
+    try:
+        return float(x)
+    except OverflowError:
+        return float('inf') if x > 0 else float('-inf')
+
+
+class Poly:
+    """f(v) = sum_k (a_k v_k + b_k v_k^2 + c_k v_k^3) + m v_0 v_last  (the Lean `testFxn`): vectorised over
+    leading axes for the implementation, exact over Fractions for the oracle."""
+
+    def __init__(self, a, b, c, m):
+        self.a, self.b, self.c, self.m = [float(v) for v in a], [float(v) for v in b], [float(v) for v in c], float(m)
+        self.dim = len(self.a)
+        np = _np()
+        self._an, self._bn, self._cn = np.array(self.a), np.array(self.b), np.array(self.c)
+        self.ncalls = 0
+
+    def spec(self):
+        return {'a': self.a, 'b': self.b, 'c': self.c, 'm': self.m}
+
+    def wire(self):
+        return ' '.join(map(cm.frs, (self.a, self.b, self.c))) + ' ' + cm.fr(self.m)
+
+    def __call__(self, v):
+        np = _np()
+        self.ncalls += 1
+        v = np.asarray(v)
+        return (self._an * v + self._bn * v * v + self._cn * v * v * v).sum(axis=-1) + self.m * v[..., 0] * v[..., -1]
+
+    def grad(self, v):
+        np = _np()
+        v = np.asarray(v, dtype=float)
+        g = self._an + 2 * self._bn * v + 3 * self._cn * v * v
+        g[..., 0] += self.m * v[..., -1]
+        g[..., -1] += self.m * v[..., 0]
+        return g
+
+    def exact(self, x):
+        x = [Fraction(t) for t in x]
+        return sum(Fraction(a) * t + Fraction(b) * t * t + Fraction(c) * t ** 3
+                   for a, b, c, t in zip(self.a, self.b, self.c, x)) + Fraction(self.m) * x[0] * x[-1]
+
+    def exact_grad(self, x):
+        x = [Fraction(t) for t in x]
+        g = [Fraction(a) + 2 * Fraction(b) * t + 3 * Fraction(c) * t * t for a, b, c, t in zip(self.a, self.b, self.c, x)]
+        g[0] += Fraction(self.m) * x[-1]
+        g[-1] += Fraction(self.m) * x[0]
+        return g
+
+    def exact_cd(self, x, s):
+        """what a central difference with step s returns in exact arithmetic: the gradient plus c_i s^2."""
+        s = Fraction(s)
+        return [g + Fraction(c) * s * s for g, c in zip(self.exact_grad(x), self.c)]
+
+    def absbound(self, x, s=0.0):
+        """sum of the absolute values of the terms of f on the box |v_k| <= |x_k| + |s|."""
+        r = [abs(_fl(t)) + abs(float(s)) for t in x]
+        if not all(t < 1e90 for t in r):
+            return float('inf')
+        return sum(abs(a) * t + abs(b) * t * t + abs(c) * t ** 3 for a, b, c, t in zip(self.a, self.b, self.c, r)) \
+            + abs(self.m) * r[0] * r[-1] + 1e-300
+
+    def lipschitz(self, radius):
+        """bound of the operator norm of the Hessian on |v_k| <= radius."""
+        return max(2 * abs(b) + 6 * abs(c) * radius for b, c in zip(self.b, self.c)) + 2 * abs(self.m)
+
+
+def _gen_poly(rng, dim, tame=False):
+    hi = 1 if tame else 2
+    return Poly([cm.dyadic(rng, -2, 2, 2) for _ in range(dim)], [cm.dyadic(rng, -hi, hi, 2) for _ in range(dim)],
+                [cm.dyadic(rng, -hi, hi, 2) for _ in range(dim)], cm.dyadic(rng, -2, 2, 1))
+
+
+def _analytic_gradient(fxn, coord, scale=1.0):
+    """a user-supplied gradientfxn: analytic gradient of the energy function it is handed, times a setting."""
+    return scale * fxn.grad(coord)
+
+
+def _degenerate(rows):
+    """consecutive images coincide, or two successive unit differences cancel (tangent 0/0)."""
+    rows = [[Fraction(v) for v in r] for r in rows]
+    dif = [[b - a for a, b in zip(r0, r1)] for r0, r1 in zip(rows, rows[1:])]
+    for v in dif:
+        if not any(v):
+            return True
+    for v, w in zip(dif, dif[1:]):
+        vw = sum(a * b for a, b in zip(v, w))
+        if vw < 0 and vw * vw == sum(a * a for a in v) * sum(b * b for b in w):
+            return True
+    return False
+
+
+def _gen_rows(rng, n, dim, span=2.0, bits=3):
+    for _ in range(200):
+        if dim == 1:
+            xs = sorted({cm.dyadic(rng, -span, span, bits) for _ in range(4 * n)})
+            if len(xs) < n:
+                continue
+            xs = rng.sample(xs, n)
+            xs.sort(reverse=rng.random() < 0.5)
+            rows = [[x] for x in xs]
+        else:
+            rows = [[cm.dyadic(rng, -span, span, bits) for _ in range(dim)] for _ in range(n)]
+        if not _degenerate(rows):
+            return rows
+    raise RuntimeError('no non-degenerate image set found')
+
+
+class Shadow:
+    """what the harness knows the object's state to be (independent of the implementation)."""
+
+    def __init__(self, coord, poly, g, kw, integ):
+        self.coord, self.poly, self.g, self.kw, self.integ = [list(r) for r in coord], poly, g, kw, integ
+        self.shared = False
+
+    def copy(self):
+        return Shadow(self.coord, self.poly, self.g, self.kw, self.integ)
+
+    @property
+    def n(self):
+        return len(self.coord)
+
+    def spec(self):
+        return {'coord': self.coord, 'poly': self.poly.spec(), 'g': self.g, 'kw': self.kw, 'integ': self.integ}
+
+    # -- exact oracle ------------------------------------------------------------------
+    def shift(self):
+        return 1e-5 if self.kw is None else self.kw
+
+    def grad_exact(self, x):
+        """(gradient the object must report at x, absolute rounding bound of the double evaluation)."""
+        mag = self.poly.absbound(x, self.shift() if self.g == 'cd' else 0.0)
+        if self.g == 'cd':
+            s = self.shift()
+            want = self.poly.exact_cd(x, Fraction('1e-5') if self.kw is None else s)
+            tol = 16 * EPS * mag / abs(s)
+        else:
+            k = Fraction(1 if self.kw is None else self.kw)
+            want = [k * v for v in self.poly.exact_grad(x)]
+            tol = 16 * EPS * mag * max(1.0, abs(_fl(k))) * (1 + max(abs(_fl(t)) for t in x))
+        return want, tol + 4 * EPS * max(abs(_fl(w)) for w in want)
+
+    def integrate_exact(self, x, h, tau=None):
+        """one integrator step of one image (exact in the rate; tau: climbing with this unit tangent).
+        Returns (new row, first-order bound of the double evaluation)."""
+        h = Fraction(h)
+        x = [Fraction(t) for t in x]
+        worst = [0.0, 0.0]   # largest gradient tolerance, largest radius seen
+
+        def rate(y):
+            g, tol = self.grad_exact(y)
+            worst[0] = max(worst[0], tol)
+            worst[1] = max(worst[1], max(abs(_fl(t)) for t in y))
+            if tau is None:
+                return [-v for v in g]
+            gt = sum(a * b for a, b in zip(g, tau))
+            return [-v + 2 * gt * t for v, t in zip(g, tau)]
+
+        def axpy(y, k, v):
+            return [a + k * b for a, b in zip(y, v)]
+        if self.integ == 'euler':
+            new = axpy(x, h, rate(x))
+            stages = 1
+        else:
+            k1 = [h * v for v in rate(x)]
+            k2 = [h * v for v in rate(axpy(x, Fraction(1, 2), k1))]
+            k3 = [h * v for v in rate(axpy(x, Fraction(1, 2), k2))]
+            k4 = [h * v for v in rate(axpy(x, 1, k3))]
+            new = [a + b / 6 + c / 3 + d / 3 + e / 6 for a, b, c, d, e in zip(x, k1, k2, k3, k4)]
+            stages = 4
+        try:
+            hl = abs(_fl(h)) * self.poly.lipschitz(worst[1] + abs(self.shift())) * (3 if tau is not None else 1)
+            amp = (1 + hl) ** (stages - 1)
+            tol = stages * amp * abs(_fl(h)) * (3 * worst[0] if tau is not None else worst[0]) \
+                + 8 * EPS * (1 + max(abs(_fl(t)) for t in new) + worst[1])
+        except OverflowError:
+            tol = float('inf')
+        if not tol < 1e300:
+            tol = float('inf')
+        return new, tol
+
+
+def _geometry(rows):
+    """arc coordinates, unit tangents of an image list in double arithmetic from the exact coordinates."""
+    rows = [[float(v) for v in r] for r in rows]
+    dif = [[b - a for a, b in zip(r0, r1)] for r0, r1 in zip(rows, rows[1:])]
+    nrm = [math.sqrt(math.fsum(v * v for v in d)) for d in dif]
+    arc = [math.fsum(nrm[:i]) for i in range(len(rows))]
+    if len(rows) < 2:
+        return arc, None
+    nan = float('nan')
+    u = [[(v / n if n else nan) for v in d] for d, n in zip(dif, nrm)]
+    raw = [u[0]] + [[a + b for a, b in zip(u[i - 1], u[i])] for i in range(1, len(u))] + [u[-1]]
+    tau = []
+    for r in raw:
+        n = math.sqrt(math.fsum(v * v for v in r))
+        tau.append([(v / n if n else nan) for v in r])
+    return arc, tau
+
+
+def _tangent_condition(rows):
+    """1 / smallest norm of an un-normalised tangent (amplification of rounding in the unit tangent)."""
+    rows = [[float(v) for v in r] for r in rows]
+    dif = [[b - a for a, b in zip(r0, r1)] for r0, r1 in zip(rows, rows[1:])]
+    nrm = [math.sqrt(math.fsum(t * t for t in d)) for d in dif]
+    if not all(nrm):
+        return float('inf')
+    u = [[v / n for v in d] for d, n in zip(dif, nrm)]
+    k = 1.0
+    for a, b in zip(u, u[1:]):
+        n = math.sqrt(math.fsum((x + y) ** 2 for x, y in zip(a, b)))
+        if n == 0:
+            return float('inf')
+        k = max(k, 2.0 / n)
+    scale = max(1.0, max(abs(v) for r in rows for v in r))
+    return k * max(1.0, scale / min(nrm))
+
+
+_GNAMES = {'cd': [None, 'cdiff', 'central_difference', 'function'], 'an': ['callable']}
+_INAMES = {'euler': ['euler', 'function'], 'rk': [None, 'rk', 'rungekutta', 'function']}
+
+
+class Runner:
+    """drives real path objects and their shadows through an operation list."""
+
+    def __init__(self):
+        self.objs, self.shadows = [], []
+        self.cur = None
+
+    # -- implementation side -------------------------------------------------------------
+    def _gfx_value(self, g, name):
+        from atomman.mep.gradient import central_difference
+        if g == 'an':
+            return _analytic_gradient
+        return central_difference if name == 'function' else name
+
+    def _ifx_value(self, integ, name):
+        from atomman.mep.integrator import euler, rungekutta
+        if name == 'function':
+            return euler if integ == 'euler' else rungekutta
+        return name
+
+    @staticmethod
+    def _kwdict(g, kw):
+        return {} if kw is None else {('shift' if g == 'cd' else 'scale'): kw}
+
+    @staticmethod
+    def _coord_value(rows, how):
+        np = _np()
+        if how == 'array':
+            return np.array(rows, dtype=float)
+        if how == 'intlist' and all(float(v).is_integer() for r in rows for v in r):
+            return [[int(v) for v in r] for r in rows]
+        return [list(r) for r in rows]
+
+    def build(self, sh, via='create_path', gname=None, iname=None, kwform='dict', coord_as='array'):
+        np = _np()
+        import atomman.mep as mep
+        coord = self._coord_value(sh.coord, coord_as)
+        kwargs = {}
+        gv = self._gfx_value(sh.g, gname)
+        if gv is not None:
+            kwargs['gradientfxn'] = gv
+        iv = self._ifx_value(sh.integ, iname)
+        if iv is not None:
+            kwargs['integratorfxn'] = iv
+        if sh.kw is not None or kwform == 'dict':
+            kwargs['gradientkwargs'] = self._kwdict(sh.g, sh.kw)
+        elif kwform == 'none':
+            kwargs['gradientkwargs'] = None
+        if via == 'create_path':
+            return mep.create_path(coord, sh.poly, **kwargs)
+        if via == 'create_path_style':
+            return mep.create_path(coord, sh.poly, style='improved_string_method', **kwargs)
+        return mep.ISMPath(coord, sh.poly, **kwargs)
+
+    @staticmethod
+    def observe(p):
+        np = _np()
+        out = {}
+        reads = (('coord', lambda: p.coord), ('energy', lambda: p.energy()), ('grad', lambda: p.grad_energy()),
+                 ('arc', lambda: p.arccoord), ('tangent', lambda: p.unittangent), ('force', lambda: p.force))
+        with np.errstate(all='ignore'):
+            for name, f in reads:
+                try:
+                    out[name] = np.array(f(), dtype=float)
+                except Exception as e:  # noqa: the implementation's exception is an observation
+                    out[name] = ('raise', type(e).__name__)
+        return out
+
+    def do(self, op):
+        """perform `op` on the current real object, update the shadow; returns the op's own result."""
+        np = _np()
+        kind = op['op']
+        if kind == 'new':
+            sh = Shadow(op['coord'], Poly(**op['poly']), op['g'], op['kw'], op['integ'])
+            try:
+                p = self.build(sh, op.get('via', 'create_path'), op.get('gname'), op.get('iname'),
+                               op.get('kwform', 'dict'), op.get('coord_as', 'array'))
+            except Exception as e:  # noqa
+                return ('raise', type(e).__name__, str(e)[:200])
+            self.objs.append(p)
+            self.shadows.append(sh)
+            self.cur = len(self.objs) - 1
+            return 'ok'
+        p, sh = self.objs[self.cur], self.shadows[self.cur]
+        try:
+            with np.errstate(all='ignore'):
+                return self._do(op, kind, p, sh)
+        except Exception as e:  # noqa
+            return ('raise', type(e).__name__, str(e)[:200])
+
+    def _do(self, op, kind, p, sh):
+        np = _np()
+        if kind == 'obs':
+            return self.observe(p)
+        if kind == 'set_coord':
+            p.coord = self._coord_value(op['coord'], op.get('as', 'array'))
+            sh.coord = [list(r) for r in op['coord']]
+            sh.shared = False
+            return 'ok'
+        if kind == 'edit_row':
+            if p.coord.dtype.kind != 'f':
+                return 'skipped'        # in-place edit of an integer array would truncate: not an operation of the model
+            p.coord[op['i']] = op['row']
+            sh.coord[op['i']] = list(op['row'])
+            return 'ok'
+        if kind == 'set_gfx':
+            p.gradientfxn = self._gfx_value(op['g'], op.get('name'))
+            d = p.gradientkwargs
+            d.clear()
+            d.update(self._kwdict(op['g'], op['kw']))
+            sh.g, sh.kw = op['g'], op['kw']
+            return 'ok'
+        if kind == 'set_kw':
+            d = p.gradientkwargs
+            d.clear()
+            d.update(self._kwdict(sh.g, op['kw']))
+            sh.kw = op['kw']
+            return 'ok'
+        if kind == 'set_integ':
+            p.integratorfxn = self._ifx_value(op['integ'], op.get('name'))
+            sh.integ = op['integ']
+            return 'ok'
+        if kind == 'bad_set':
+            attr = op['attr']
+            if attr == 'energyfxn':
+                p.energyfxn = sh.poly
+            elif attr == 'gradientkwargs':
+                p.gradientkwargs = {}
+            elif attr == 'gradientfxn:str':
+                p.gradientfxn = 'forward_difference'
+            elif attr == 'integratorfxn:str':
+                p.integratorfxn = 'verlet'
+            elif attr == 'gradientfxn:type':
+                p.gradientfxn = 3
+            elif attr == 'integratorfxn:type':
+                p.integratorfxn = 0.5
+            return 'accepted'
+        if kind == 'energy_at':
+            return np.array(p.energy(np.array(op['pts'], dtype=float)), dtype=float)
+        if kind == 'grad_at':
+            return np.array(p.grad_energy(np.array(op['pts'], dtype=float)), dtype=float)
+        if kind == 'defaults':
+            return np.array([p.default_timestep, p.default_tolerance], dtype=float)
+        if kind in ('step', 'relax'):
+            if kind == 'step':
+                kw = {'timestep': op['h']}
+                if op.get('climb') is not None:
+                    kw['climbindex'] = op['climb']
+                q = p.step(**kw)
+            else:
+                q = p.relax(relaxsteps=op['r'], climbsteps=op['c'], timestep=op['h'], tolerance=0.0, verbose=False)
+            res = {'coord': np.array(q.coord, dtype=float), 'type': type(q).__name__,
+                   'same_energyfxn': q.energyfxn is p.energyfxn, 'same_gradientfxn': q.gradientfxn is p.gradientfxn,
+                   'same_integratorfxn': q.integratorfxn is p.integratorfxn,
+                   'kwargs': dict(q.gradientkwargs)}
+            if q is p:
+                res['index'], res['same_object'] = self.cur, True
+                return res
+            nsh = sh.copy()
+            nsh.coord = res['coord'].tolist()
+            self.objs.append(q)
+            self.shadows.append(nsh)
+            res['index'] = len(self.objs) - 1
+            if op.get('adopt'):
+                self.cur = res['index']
+            return res
+        raise ValueError('unknown op ' + kind)
+
+
+def _gen_sequence(rng, nops, tier_big=False):
+    """a construction followed by `nops` operations (each followed by a full read of the object)."""
+    dim = rng.choice([1, 2, 2, 2, 3, 3, 4])
+    n = rng.choice([1, 2, 2, 2, 3, 3, 4, 5, 6])
+    poly = _gen_poly(rng, dim, tame=True)
+    g = rng.choice(['cd', 'cd', 'an'])
+
+    def gen_kw(g):
+        if g == 'cd':
+            return rng.choice([None, None, 2.0 ** -10, 2.0 ** -6, 2.0 ** -8, 1e-3, 2.0 ** -12])
+        return rng.choice([None, 1.0, 0.5, -1.0, 2.0, 0.75])
+    integ = rng.choice(['euler', 'rk', 'rk'])
+    ints = rng.random() < 0.15
+    ops = [{'op': 'new', 'via': rng.choice(['create_path', 'ISMPath', 'create_path_style']),
+            'coord': _gen_rows(rng, n, dim, span=4.0, bits=0) if ints else _gen_rows(rng, n, dim),
+            'coord_as': 'intlist' if ints else rng.choice(['array', 'array', 'list']), 'poly': poly.spec(), 'g': g, 'gname': rng.choice(_GNAMES[g]),
+            'kw': gen_kw(g), 'kwform': rng.choice(['dict', 'none', 'absent']), 'integ': integ,
+            'iname': rng.choice(_INAMES[integ])},
+           {'op': 'obs'}]
+    for _ in range(nops):
+        r = rng.random()
+        if r < 0.28:
+            how = rng.random()
+            if how < 0.4 or n < 2:
+                n = rng.choice([n, n, max(2, n - 1), n + 1, 2]) if how > 0.2 else n
+                n = max(1, min(7, n))
+                ints = rng.random() < 0.15
+                rows = _gen_rows(rng, n, dim, span=4.0, bits=0) if ints else _gen_rows(rng, n, dim)
+                ops.append({'op': 'set_coord', 'coord': rows, 'as': 'intlist' if ints else rng.choice(['array', 'list']),
+                            'how': 'fresh'})
+            else:
+                ops.append({'op': 'set_coord', 'how': 'perturb', 'as': rng.choice(['array', 'list']),
+                            'i': rng.randrange(n), 'j': rng.randrange(dim),
+                            'delta': rng.choice([2.0 ** -3, -2.0 ** -3, 2.0 ** -6, 1.0, -0.5, 2.0 ** -20])})
+        elif r < 0.40 and n >= 1:
+            ops.append({'op': 'edit_row', 'i': rng.randrange(n), 'how': 'perturb', 'j': rng.randrange(dim),
+                        'delta': rng.choice([2.0 ** -3, -2.0 ** -3, 2.0 ** -5, 1.0, -0.5])})
+        elif r < 0.52:
+            g = rng.choice(['cd', 'an'])
+            ops.append({'op': 'set_gfx', 'g': g, 'name': rng.choice([x for x in _GNAMES[g] if x is not None]),
+                        'kw': gen_kw(g)})
+        elif r < 0.62:
+            ops.append({'op': 'set_kw', 'kw': gen_kw(g)})
+        elif r < 0.68:
+            integ = rng.choice(['euler', 'rk'])
+            ops.append({'op': 'set_integ', 'integ': integ, 'name': rng.choice([x for x in _INAMES[integ] if x is not None])})
+        elif r < 0.72:
+            ops.append({'op': 'bad_set', 'attr': rng.choice(['energyfxn', 'gradientkwargs', 'gradientfxn:str',
+                                                            'integratorfxn:str', 'gradientfxn:type', 'integratorfxn:type'])})
+        elif r < 0.80:
+            pts = [[cm.dyadic(rng, -2, 2, 3) for _ in range(dim)] for _ in range(rng.choice([1, 2, 3]))]
+            ops.append({'op': rng.choice(['energy_at', 'grad_at']), 'pts': pts})
+        elif r < 0.83:
+            ops.append({'op': 'defaults'})
+        elif r < 0.95:
+            climb = None
+            if n >= 3 and rng.random() < 0.5:
+                k = rng.randrange(1, n - 1)
+                climb = rng.choice([k, [k]]) if n < 5 or rng.random() < 0.7 else sorted({k, rng.randrange(1, n - 1)})
+            ops.append({'op': 'step', 'hrel': rng.choice([0.5, 0.25, 0.125, 0.3]), 'climb': climb,
+                        'adopt': rng.random() < 0.5})
+        else:
+            ops.append({'op': 'relax', 'r': rng.randint(0, 2), 'c': rng.randint(0, 1), 'hrel': rng.choice([0.25, 0.125]),
+                        'adopt': rng.random() < 0.5})
+        ops.append({'op': 'obs'})
+    return ops
+
+
+def _stable_step(sh):
+    """1 / (Lipschitz bound of the rate on the box around the images): time steps below it are in the stable range."""
+    radius = max(abs(v) for r in sh.coord for v in r) + 1.0
+    k = abs(sh.kw) if (sh.g == 'an' and sh.kw is not None) else 1.0
+    return 1.0 / (sh.poly.lipschitz(radius) * max(k, 1e-3) + 1e-3)
+
+
+def _resolve(op, sh):
+    """fill in operations that are relative to the object's current state (perturbations, time steps as a fraction of
+    the stable limit)."""
+    if 'hrel' in op and 'h' not in op:
+        op = dict(op)
+        h = op['hrel'] * _stable_step(sh)
+        op['h'] = 2.0 ** math.floor(math.log2(h)) if op['hrel'] != 0.3 else float(f'{h:.2g}')
+    if op.get('how') == 'perturb':
+        op = dict(op)
+        i, j = op['i'] % sh.n, op['j']
+        if op['op'] == 'set_coord':
+            rows = [list(r) for r in sh.coord]
+            rows[i][j] += op['delta']
+            if _degenerate(rows):
+                rows[i][j] += 0.5 + abs(op['delta'])
+            op['coord'] = rows
+        else:
+            row = list(sh.coord[i])
+            row[j] += op['delta']
+            rows = [list(r) for r in sh.coord]
+            rows[i] = row
+            if _degenerate(rows):
+                row[j] += 0.5 + abs(op['delta'])
+            op['i'], op['row'] = i, row
+        op['how'] = 'resolved'
+    return op
+
+
+_BAD_SET = {'energyfxn': ('AttributeError', 'err:op'), 'gradientkwargs': ('AttributeError', 'err:op'),
+            'gradientfxn:str': ('ValueError', 'err:value'), 'integratorfxn:str': ('ValueError', 'err:value'),
+            'gradientfxn:type': ('TypeError', None), 'integratorfxn:type': ('TypeError', None)}
+
+
+class OracleModel:
+    """expected observations from the shadow state alone (Fractions / double geometry): no Lean, no atomman."""
+    name = 'oracle'
+
+    def __init__(self, runner):
+        self.r = runner
+
+    def mirror(self, idx, op, sh):
+        return None
+
+    def obs(self, idx, sh):
+        arc, tau = _geometry(sh.coord)
+        grads = [sh.grad_exact(r)[0] for r in sh.coord]
+        out = {'coord': [Fraction(v) for r in sh.coord for v in r],
+               'energy': [sh.poly.exact(r) for r in sh.coord],
+               'grad': [v for g in grads for v in g],
+               'arc': arc}
+        if tau is None:
+            out['tangent'] = out['force'] = ('raise',)
+        else:
+            out['tangent'] = [v for t in tau for v in t]
+            out['force'] = [math.fsum(float(a) * b for a, b in zip(g, t)) for g, t in zip(grads, tau)]
+        return out
+
+    def energy_at(self, idx, sh, pts):
+        return [sh.poly.exact(r) for r in pts]
+
+    def grad_at(self, idx, sh, pts):
+        return [v for r in pts for v in sh.grad_exact(r)[0]]
+
+    def defaults(self, idx, sh):
+        n = sh.n
+        return [Fraction(1, 20) * min(Fraction(1, 5), Fraction(1, n)), max(Fraction(1, n ** 4), Fraction(1, 10 ** 10))]
+
+    def step(self, idx, sh, h, climb):
+        """rows the step must leave where the integrator put them: {row index: exact row}."""
+        if sh.n < 2:
+            return ('raise',)
+        _, tau = _geometry(sh.coord)
+        rows = {}
+        for i in ([0, sh.n - 1] if sh.n > 2 else [0, 1]):
+            rows[i] = sh.integrate_exact(sh.coord[i], h)[0]
+        if _tangent_condition(sh.coord) < 1e6:
+            for i in climb:
+                rows[i] = sh.integrate_exact(sh.coord[i], h, tau=[Fraction(t) for t in tau[i]])[0]
+        return rows
+
+    def ends(self, idx, sh, h, nsteps):
+        if sh.n < 2 and nsteps > 0:
+            return ('raise',)
+        out = []
+        for x in (sh.coord[0], sh.coord[-1]):
+            for _ in range(nsteps):
+                x = sh.integrate_exact(x, h)[0]
+            out.append(x)
+        return out
+
+    def adopt(self, idx_old, idx_new, sh_new):
+        pass
+
+
+class LeanModel:
+    """the same questions put to the compiled Lean model (`drv_c20`, stateful path table)."""
+    name = 'lean'
+
+    def __init__(self, runner, driver):
+        self.r, self.d = runner, driver
+        self.map = {}
+        self.d.ask('preset')
+
+    @staticmethod
+    def _rows(rows):
+        return ' '.join(cm.frs(r) for r in rows)
+
+    def new(self, idx, sh):
+        kw = '' if sh.kw is None else ' ' + cm.fr(sh.kw)
+        out = self.d.ask(f'pnew {sh.poly.dim} {sh.n} {sh.g} {0 if sh.kw is None else 1} {sh.integ} '
+                         f'{self._rows(sh.coord)} {sh.poly.wire()}{kw}')
+        if out.startswith('ok '):
+            self.map[idx] = int(out.split()[1])
+        return out
+
+    def mirror(self, idx, op, sh):
+        k = self.map[idx]
+        kind = op['op']
+        if kind == 'set_coord':
+            return self.d.ask(f'pcoord {k} {len(op["coord"])} {self._rows(op["coord"])}')
+        if kind == 'edit_row':
+            return self.d.ask(f'prow {k} {op["i"]} {cm.frs(op["row"])}')
+        if kind == 'set_gfx':
+            a = self.d.ask(f'pgfx {k} {op["g"]}')
+            b = self.d.ask(f'pkw {k} 0' if op['kw'] is None else f'pkw {k} 1 {cm.fr(op["kw"])}')
+            return a if a != 'ok' else b
+        if kind == 'set_kw':
+            return self.d.ask(f'pkw {k} 0' if op['kw'] is None else f'pkw {k} 1 {cm.fr(op["kw"])}')
+        if kind == 'set_integ':
+            return self.d.ask(f'pint {k} {op["integ"]}')
+        if kind == 'bad_set':
+            attr = op['attr']
+            if attr in ('energyfxn', 'gradientkwargs'):
+                return self.d.ask(f'psetattr {k} {attr}')
+            if attr == 'gradientfxn:str':
+                return self.d.ask(f'pgfx {k} forward_difference')
+            if attr == 'integratorfxn:str':
+                return self.d.ask(f'pint {k} verlet')
+            return None
+        return None
+
+    @staticmethod
+    def _sec(text):
+        text = text.strip()
+        if text.startswith('err:'):
+            return ('raise',)
+        return cm.unfrs(text)
+
+    def obs(self, idx, sh):
+        out = self.d.ask(f'pobs {self.map[idx]}')
+        if out.startswith('err:'):
+            return {'_error': out}
+        secs = out.split(';')
+        return dict(zip(('coord', 'energy', 'grad', 'arc', 'tangent', 'force'), map(self._sec, secs)))
+
+    def energy_at(self, idx, sh, pts):
+        return self._sec(self.d.ask(f'penergy {self.map[idx]} {len(pts)} {self._rows(pts)}'))
+
+    def grad_at(self, idx, sh, pts):
+        return self._sec(self.d.ask(f'pgradat {self.map[idx]} {len(pts)} {self._rows(pts)}'))
+
+    def defaults(self, idx, sh):
+        return self._sec(self.d.ask(f'pdef {sh.n}'))
+
+    def step(self, idx, sh, h, climb):
+        out = self.d.ask(f'pstep {self.map[idx]} {cm.fr(h)} ' + ' '.join(str(i) for i in climb))
+        if out.startswith('err:'):
+            return ('raise',)
+        head, body = out.split(';')
+        self._last_new = int(head.split()[1])
+        flat = cm.unfrs(body)
+        d = sh.poly.dim
+        rows = [flat[i * d:(i + 1) * d] for i in range(sh.n)]
+        keep = set([0, sh.n - 1]) | set(climb)
+        return {i: rows[i] for i in sorted(keep)}
+
+    def ends(self, idx, sh, h, nsteps):
+        if sh.n < 2 and nsteps > 0:
+            return ('raise',)
+        out = self.d.ask(f'pends {self.map[idx]} {cm.fr(h)} {nsteps}')
+        if out.startswith('err:'):
+            return ('raise',)
+        flat = cm.unfrs(out)
+        d = sh.poly.dim
+        self._last_new = None
+        return [flat[:d], flat[d:]]
+
+    def adopt(self, idx_old, idx_new, sh_new):
+        """register the object returned by step/relax: same functions and settings, the implementation's coordinates."""
+        k = getattr(self, '_last_new', None)
+        if k is None:
+            out = self.d.ask(f'pcopy {self.map[idx_old]}')
+            k = int(out.split()[1])
+        self.map[idx_new] = k
+        self.d.ask(f'pcoord {k} {sh_new.n} {self._rows(sh_new.coord)}')
+        self._last_new = None
+
+
+def _flat(x):
+    return [float(v) for v in _np().asarray(x, dtype=float).ravel()]
+
+
+def _differs(impl, want, tols):
+    """index of the first entry of `impl` further than its bound from `want`, or None."""
+    if len(impl) != len(want):
+        return -1
+    for i, (a, b) in enumerate(zip(impl, want)):
+        t = tols[i] if isinstance(tols, list) else tols
+        if t == float('inf'):
+            continue                     # beyond the double range: no statement
+        fb = _fl(b)
+        if not (abs(a - fb) <= t):       # also true for nan
+            return i
+    return None
+
+
+def _run_sequence(ctx, ops, model_kind, label):
+    """run one operation list on the real code; compare every observation with the model (`oracle`: shadow state with
+    exact arithmetic and a freshly built path; `lean`: the Lean path object). Returns the resolved op list."""
+    np = _np()
+    import sys
+    if sys.get_int_max_str_digits() and sys.get_int_max_str_digits() < 100000:
+        sys.set_int_max_str_digits(100000)      # exact iterates of cubic maps on the wire
+    runner = Runner()
+    model = OracleModel(runner) if model_kind == 'oracle' else LeanModel(runner, ctx.driver)
+    emit = ctx.violate if model_kind == 'oracle' else ctx.disagree
+    done = []
+    failed = [False]
+
+    def report(key, what):
+        failed[0] = True
+        emit(key, f'{what}  [{label}, after {len(done)} operations: ' + ' > '.join(_brief(o) for o in done[-6:]) + ']',
+             {'op': 'path-seq', 'ops': done, 'model': model_kind})
+
+    for op in ops:
+        if failed[0]:
+            break
+        if op['op'] != 'new' and runner.cur is None:
+            break
+        sh = runner.shadows[runner.cur] if runner.cur is not None else None
+        if sh is not None:
+            op = _resolve(op, sh)
+        if op['op'] == 'edit_row' and sh.shared:
+            continue
+        before = sh.copy() if sh is not None else None
+        idx = runner.cur
+        res = runner.do(op)
+        done.append(op)
+        kind = op['op']
+        raised = isinstance(res, tuple) and res and res[0] == 'raise'
+        if kind == 'new':
+            if raised:
+                report('path:construct-raises', f'constructing the path raised {res[1]}: {res[2]}')
+                break
+            if model_kind == 'lean':
+                out = model.new(runner.cur, runner.shadows[runner.cur])
+                if not out.startswith('ok'):
+                    report('path:driver', f'model refused the construction: {out}')
+            continue
+        if kind in ('set_coord', 'edit_row', 'set_gfx', 'set_kw', 'set_integ'):
+            if res == 'skipped':
+                done.pop()
+                continue
+            if raised:
+                report(f'path:{kind}-raises', f'{_brief(op)} raised {res[1]}: {res[2]}')
+                continue
+            out = model.mirror(idx, op, sh)
+            if out is not None and out != 'ok':
+                report('path:driver', f'model refused {_brief(op)}: {out}')
+            continue
+        if kind == 'bad_set':
+            want_exc, want_err = _BAD_SET[op['attr']]
+            if not raised:
+                report('path:bad-set', f'assignment {op["attr"]} with an invalid value was accepted')
+            elif res[1] != want_exc:
+                report('path:bad-set', f'assignment {op["attr"]} raised {res[1]} instead of {want_exc}')
+            out = model.mirror(idx, op, sh)
+            if out is not None and out != want_err:
+                report('path:driver', f'model answered {out} to the invalid assignment {op["attr"]}')
+            continue
+        if kind == 'obs':
+            _check_obs(ctx, report, model, model_kind, runner, idx, sh, res)
+            continue
+        if kind in ('energy_at', 'grad_at'):
+            want = (model.energy_at if kind == 'energy_at' else model.grad_at)(idx, sh, op['pts'])
+            if raised:
+                report(f'path:{kind}-raises', f'{kind} raised {res[1]}: {res[2]}')
+                continue
+            if kind == 'energy_at':
+                tols = [16 * EPS * sh.poly.absbound(r) for r in op['pts']]
+                shape = (len(op['pts']),)
+            else:
+                tols = [sh.grad_exact(r)[1] for r in op['pts'] for _ in r]
+                shape = (len(op['pts']), sh.poly.dim)
+            bad = -1 if tuple(res.shape) != shape else _differs(_flat(res), want, tols)
+            if bad is not None:
+                report(f'path:{kind}', f'{"energy" if kind == "energy_at" else "grad_energy"}(coord) at {op["pts"]} returned '
+                       f'{res.tolist()}, expected {[_fl(w) for w in want]} ({sh.g}, settings {sh.kw})')
+            continue
+        if kind == 'defaults':
+            want = model.defaults(idx, sh)
+            if raised or _differs(_flat(res), want, [1e-15, 1e-15]) is not None:
+                report('path:defaults', f'default_timestep/default_tolerance for {sh.n} images: {res}, expected '
+                       f'{[_fl(w) for w in want]}')
+            continue
+        if kind in ('step', 'relax'):
+            _check_step(ctx, report, model, model_kind, runner, idx, before, op, res, raised)
+            continue
+    return done
+
+
+def _brief(op):
+    k = op['op']
+    if k == 'new':
+        return (f"{op.get('via', 'create_path')}({len(op['coord'])}x{len(op['coord'][0])}, gradientfxn={op.get('gname')}/{op['g']}, "
+                f"kwargs={op['kw']}, integratorfxn={op.get('iname')}/{op['integ']})")
+    if k == 'set_coord':
+        return f"coord = <{len(op.get('coord', []))} images, {op.get('how')}>"
+    if k == 'edit_row':
+        return f"coord[{op['i']}] = {op.get('row')}"
+    if k == 'set_gfx':
+        return f"gradientfxn = {op.get('name')}/{op['g']}, kwargs={op['kw']}"
+    if k == 'set_kw':
+        return f"gradientkwargs <- {op['kw']}"
+    if k == 'set_integ':
+        return f"integratorfxn = {op.get('name')}"
+    if k == 'bad_set':
+        return f"bad {op['attr']}"
+    if k == 'step':
+        return f"step(h={op['h']}, climb={op.get('climb')}{', adopt' if op.get('adopt') else ''})"
+    if k == 'relax':
+        return f"relax({op['r']},{op['c']},h={op['h']}{', adopt' if op.get('adopt') else ''})"
+    return k
+
+
+def _obs_tolerances(sh):
+    n, d = sh.n, sh.poly.dim
+    gt = [sh.grad_exact(r) for r in sh.coord]
+    arc, _ = _geometry(sh.coord)
+    tol = {'coord': 0.0,
+           'energy': [16 * EPS * sh.poly.absbound(r) for r in sh.coord],
+           'grad': [t for _, t in gt for _ in range(d)],
+           'arc': 16 * EPS * (n + 1) * (1.0 + (arc[-1] if arc else 0.0))}
+    if n >= 2:
+        tt = 32 * EPS * _tangent_condition(sh.coord)
+        tol['tangent'] = tt
+        tol['force'] = [d * (t + tt * max(abs(float(v)) for v in g)) + 8 * EPS * sum(abs(float(v)) for v in g)
+                        for g, t in gt]
+    return tol
+
+
+def _check_obs(ctx, report, model, model_kind, runner, idx, sh, res):
+    np = _np()
+    want = model.obs(idx, sh)
+    if '_error' in want:
+        report('path:driver', f'model cannot be read: {want["_error"]}')
+        return
+    tol = _obs_tolerances(sh)
+    shapes = {'coord': (sh.n, sh.poly.dim), 'energy': (sh.n,), 'grad': (sh.n, sh.poly.dim), 'arc': (sh.n,),
+              'tangent': (sh.n, sh.poly.dim), 'force': (sh.n,)}
+    names = {'coord': '.coord', 'energy': '.energy()', 'grad': '.grad_energy()', 'arc': '.arccoord',
+             'tangent': '.unittangent', 'force': '.force'}
+    ctx.stats.case(f'{model_kind}:path-read', (repr(sh.spec()), idx), nontrivial=sh.n >= 2,
+                   sample={'op': 'path-read', 'state': sh.spec()})
+    illcond = sh.n >= 2 and not (_tangent_condition(sh.coord) < 1e6)
+    for name in ('coord', 'energy', 'grad', 'arc', 'tangent', 'force'):
+        if illcond and name in ('tangent', 'force'):
+            continue        # coincident images / cancelling unit differences: 0/0 in the implementation
+        got, exp = res[name], want[name]
+        got_raise = isinstance(got, tuple)
+        exp_raise = isinstance(exp, tuple)
+        if got_raise or exp_raise:
+            if got_raise != exp_raise:
+                report(f'path:{name}', f'{names[name]} {"raised " + got[1] if got_raise else "returned a value"} where the model '
+                       f'{"raises" if exp_raise else "returns a value"} ({sh.n} images)')
+                return
+            continue
+        bad = -1 if tuple(got.shape) != shapes[name] else _differs(_flat(got), exp, tol[name])
+        if bad is not None:
+            report(f'path:{name}', f'{names[name]} of the path is {got.tolist()} but its state (coord {sh.coord}, gradient '
+                   f'{sh.g}, settings {sh.kw}) gives {[_fl(w) for w in exp]}' + (f' (first difference at flat index {bad})' if bad >= 0 else ' (shape)'))
+            return
+    if model_kind == 'oracle':
+        # the same state in a freshly constructed object: bit-identical reads
+        fresh = Runner.observe(runner.build(sh.copy(), via='ISMPath', gname=('callable' if sh.g == 'an' else 'function'),
+                                            iname='function'))
+        for name in ('coord', 'energy', 'grad', 'arc', 'tangent', 'force'):
+            a, b = res[name], fresh[name]
+            same = (a == b) if isinstance(a, tuple) or isinstance(b, tuple) else \
+                (a.shape == b.shape and bool(np.array_equal(a, b, equal_nan=True)))
+            if not same:
+                report(f'path:{name}:fresh', f'{names[name]} of the path ({a if isinstance(a, tuple) else a.tolist()}) differs from '
+                       f'that of a freshly built path with the same coordinates, functions and settings '
+                       f'({b if isinstance(b, tuple) else b.tolist()})')
+                return
+
+
+def _climb_degenerate(runner, before, op, climb):
+    """climbing with a tangent that is 0/0 (coincident images, cancelling unit differences): the implementation
+    hands nan to the spline and raises; the model makes no statement there."""
+    np = _np()
+    if op['op'] == 'step':
+        return bool(climb) and not _tangent_condition(before.coord) < 1e6
+    if op['c'] == 0 or before.n < 3:
+        return False
+    try:        # the string the climbing phase starts from
+        with np.errstate(all='ignore'):
+            q = runner.build(before.copy(), via='ISMPath', gname=('callable' if before.g == 'an' else 'function'),
+                             iname='function').relax(relaxsteps=op['r'], climbsteps=0, timestep=op['h'], tolerance=0.0,
+                                                     verbose=False)
+        return not (np.isfinite(q.coord).all() and _tangent_condition(q.coord.tolist()) < 1e6)
+    except Exception:  # noqa
+        return False
+
+
+def _check_step(ctx, report, model, model_kind, runner, idx, before, op, res, raised):
+    np = _np()
+    kind = op['op']
+    p = runner.objs[idx]
+    d = before.poly.dim
+    ctx.stats.case(f'{model_kind}:path-{kind}', (repr(before.spec()), repr(op)), nontrivial=before.n >= 2,
+                   sample={'op': kind, 'state': before.spec(), 'args': {k: v for k, v in op.items() if k != 'op'}})
+    # the object stepped from is untouched
+    now = np.array(p.coord, dtype=float)
+    if now.shape != (before.n, d) or not np.array_equal(now, np.array(before.coord, dtype=float)):
+        report(f'path:{kind}:mutates-self', f'{_brief(op)} changed the coordinates of the path it was called on: '
+               f'{before.coord} -> {now.tolist()}')
+        return
+    if kind == 'step':
+        climb = op.get('climb')
+        climb = [] if climb is None else ([climb] if isinstance(climb, int) else list(climb))
+        want = model.step(idx, before, op['h'], climb)
+        nsteps = 1
+    else:
+        nsteps = op['r'] + op['c']
+        climb = []
+        # exact iteration of a cubic map multiplies the size of the rationals 16-fold (RK) / 2-fold (Euler) per step
+        bits = max(Fraction(v).denominator.bit_length() + 4 for r in (before.coord[0], before.coord[-1]) for v in r) \
+            + (17 if before.g == 'cd' and before.kw is None else 12)
+        exact_ok = bits * (16 if before.integ == 'rk' else 2) ** nsteps <= 40000
+        want = model.ends(idx, before, op['h'], nsteps) if nsteps and (exact_ok or before.n < 2) else None
+    if kind == 'relax' and nsteps == 0:
+        if raised or res['coord'].shape != (before.n, d) or not np.array_equal(res['coord'], now):
+            report('path:relax0', f'relax with no steps did not return the unchanged path: {res}')
+        elif not res.get('same_object'):
+            model.adopt(idx, res['index'], runner.shadows[res['index']])
+        return
+    if isinstance(want, tuple):
+        if not raised:
+            report(f'path:{kind}', f'{_brief(op)} on a {before.n}-image path returned a path where the model refuses')
+        return
+    if raised:
+        if _climb_degenerate(runner, before, op, climb):
+            ctx.stats.case(f'{model_kind}:path-degenerate-tangent', repr(op), nontrivial=False)
+            return
+        report(f'path:{kind}-raises', f'{_brief(op)} raised {res[1]}: {res[2]}')
+        return
+    new = res['coord']
+    scale_all = max(1.0, max(abs(v) for r in before.coord for v in r))
+    if new.shape == (before.n, d) and not (np.isfinite(new).all() and np.abs(new).max() <= 100 * scale_all):
+        # the images ran away (cubic energies are unbounded below): outside the stable range, no statement
+        ctx.stats.case(f'{model_kind}:path-runaway', repr(op), nontrivial=False)
+        runner.cur = None
+        return
+    scale_all = max(scale_all, float(np.abs(new).max())) if new.size else scale_all
+    if res['type'] != 'ISMPath' or new.shape != (before.n, d):
+        report(f'path:{kind}:shape', f'{_brief(op)} returned {res["type"]} with coordinates of shape {new.shape}')
+        return
+    if not (res['same_energyfxn'] and res['same_gradientfxn'] and res['kwargs'] == Runner._kwdict(before.g, before.kw)):
+        report(f'path:{kind}:settings', f'the path returned by {_brief(op)} does not carry the energy/gradient functions and '
+               f'settings of the path it came from (kwargs {res["kwargs"]})')
+        return
+    if not res['same_integratorfxn']:
+        report(f'path:{kind}:integrator', f'the path returned by {_brief(op)} does not use the integrator of the path it came '
+               f'from ({before.integ})')
+        return
+    # rows that the re-spacing must leave where the integrator put them
+    if kind == 'step':
+        _, tau = _geometry(before.coord)
+        cond = _tangent_condition(before.coord)
+        for i, row in sorted(want.items()):
+            if i in climb and not cond < 1e6:
+                continue
+            if i in climb:
+                _, tol = before.integrate_exact(before.coord[i], op['h'], tau=[Fraction(t) for t in tau[i]])
+                gmax = max(abs(float(v)) for v in before.grad_exact(before.coord[i])[0])
+                tol += 4 * 64 * EPS * cond * abs(op['h']) * (gmax + 1)
+            else:
+                _, tol = before.integrate_exact(before.coord[i], op['h'])
+            tol += 1e3 * EPS * scale_all      # spline evaluation at a knot
+            if _differs(_flat(new[i]), row, tol) is not None:
+                report(f'path:step:{"climb" if i in climb else "end"}-row',
+                       f'{_brief(op)} from coord {before.coord} ({before.integ}, gradient {before.g}, settings {before.kw}): image {i} is '
+                       f'{new[i].tolist()}, the integrator step of that image is {[_fl(v) for v in row]}')
+                return
+    elif want is None:
+        ctx.stats.case(f'{model_kind}:path-relax-unchecked-rows', repr(op), nontrivial=False)
+    else:
+        for x0, row, i in ((before.coord[0], want[0], 0), (before.coord[-1], want[1], before.n - 1)):
+            tol, x = 0.0, x0
+            for _ in range(nsteps):
+                x, t = before.integrate_exact(x, op['h'])
+                try:
+                    hl = abs(op['h']) * before.poly.lipschitz(max(abs(_fl(v)) for v in x) + 1)
+                    tol = tol * (1 + hl) ** (4 if before.integ == 'rk' else 1) + t + 1e3 * EPS * scale_all
+                except OverflowError:
+                    tol = float('inf')
+            if _differs(_flat(new[i]), row, tol) is not None:
+                report('path:relax:end-row', f'{_brief(op)} from coord {before.coord} ({before.integ}, gradient {before.g}, settings '
+                       f'{before.kw}): end image {i} is {new[i].tolist()}, {nsteps} integrator steps of that image give '
+                       f'{[_fl(v) for v in row]}')
+                return
+    model.adopt(idx, res['index'], runner.shadows[res['index']])
+
+
+_LEADING = [(), (1,), (3,), (5,), (2, 3), (3, 2), (2, 2), (3, 3), (4, 4), (1, 4), (4, 1), (2, 5), (2, 3, 2), (2, 2, 2),
+            (3, 3, 3), (2, 3, 4), (1, 2, 1), (2, 1, 3, 2)]
+
+
+def _gen_cd_array(rng, tier_big=False):
+    """points of every leading shape for central_difference: () (N,) (m,n) (k,m,n) (j,k,m,n), square and not."""
+    d = rng.choice([1, 2, 2, 3, 3, 4])
+    lead = rng.choice(_LEADING)
+    npts = 1
+    for k in lead:
+        npts *= k
+    poly = _gen_poly(rng, d)
+    span = rng.choice([1.0, 2.0, 8.0])
+    container = rng.choice(['array', 'array', 'list', 'intlist', 'intarray'])
+    bits = 0 if container.startswith('int') else 3
+    pts = [[cm.dyadic(rng, -span, span, bits) for _ in range(d)] for _ in range(npts)]
+    shift = rng.choice([None, 2.0 ** -3, 2.0 ** -6, 2.0 ** -10, 1e-3, 2.0 ** -2, 0.01])
+    return {'op': 'cd-array', 'poly': poly.spec(), 'lead': list(lead), 'pts': pts, 'shift': shift, 'container': container}
+
+
+def _cd_array_call(case):
+    """the implementation on the case: (array | ('raise', name, text), poly)."""
+    np = _np()
+    from atomman.mep.gradient import central_difference
+    poly = Poly(**case['poly'])
+    X = np.array(case['pts'], dtype=float).reshape(tuple(case['lead']) + (poly.dim,))
+    cont = case.get('container', 'array')
+    if cont.startswith('int'):          # evaluation points with integer coordinates given as Python ints / an int array
+        X = X.astype(int)
+    arg = X if cont.endswith('array') else X.tolist()
+    try:
+        with np.errstate(all='ignore'):
+            g = central_difference(poly, arg) if case['shift'] is None else central_difference(poly, arg, case['shift'])
+        return np.asarray(g), poly
+    except Exception as e:  # noqa: an observation
+        return ('raise', type(e).__name__, str(e)[:200]), poly
+
+
+def _cd_array_check(case, got, poly, want_flat=None):
+    """None if the returned array is the gradient array of the case, else a description."""
+    np = _np()
+    shape = tuple(case['lead']) + (poly.dim,)
+    s = 1e-5 if case['shift'] is None else case['shift']
+    if isinstance(got, tuple):
+        return f'raised {got[1]}: {got[2]}'
+    if tuple(got.shape) != shape:
+        return f'returned shape {tuple(got.shape)}'
+    if want_flat is None:
+        se = Fraction('1e-5') if case['shift'] is None else s
+        want_flat = [v for r in case['pts'] for v in poly.exact_cd(r, se)]
+    tols = [32 * EPS * poly.absbound(r, s) / abs(s) + 1e-300 for r in case['pts'] for _ in r]
+    bad = _differs(_flat(got), want_flat, tols)
+    if bad is None:
+        return None
+    k, i = divmod(bad, poly.dim)
+    return (f'entry {tuple(int(q) for q in np.unravel_index(k, shape[:-1])) if shape[:-1] else ()}+({i},) is {_flat(got)[bad]!r}, the gradient component '
+            f'{i} at point {case["pts"][k]} is {float(want_flat[bad])!r}')
 
 
 # ----------------------------------------------------------------------------------------
@@ -199,13 +1256,33 @@ def correspond(ctx):
         line = f'climb {dim} ' + cm.frs(g) + ' ' + cm.frs(tau)
         lines.append(line)
         checks.append(('climb-formula', line, list(impl), {'g': g, 'tau': tau}))
+    # central_difference on coordinate arrays of every leading shape
+    for it in range(ctx.n(150, 2000)):
+        case = _gen_cd_array(rng)
+        got, poly = _cd_array_call(case)
+        s_ = Fraction('1e-5') if case['shift'] is None else Fraction(case['shift'])
+        line = (f'cda {poly.dim} {len(case["pts"])} {cm.fr(s_)} {poly.wire()} ' + ' '.join(cm.frs(r) for r in case['pts']))
+        lines.append(line)
+        checks.append(('cd-array', line, (case, got, poly), case))
+        ctx.stats.case('cd-array', line, nontrivial=len(case['pts']) > 0,
+                       sample={'op': 'central_difference', 'leading_shape': case['lead'], 'dim': poly.dim, 'shift': case['shift']})
     outs = ctx.driver.ask_many(lines)
     _relax_flow(ctx, rng)
+    for it in range(ctx.n(120, 1500)):
+        ops = _gen_sequence(rng, rng.randint(3, 8))
+        _run_sequence(ctx, ops, 'lean', f'sequence {it}')
     for (name, line, impl, info), out in zip(checks, outs):
         if out.startswith('err:'):
             ctx.disagree(f'{name}:driver-error', f'model refused {name}: {out}', {'line': line, 'impl': impl})
             continue
         model = cm.unfrs(out)
+        if name == 'cd-array':
+            case, got, poly = impl
+            why = _cd_array_check(case, got, poly, want_flat=model)
+            if why is not None:
+                ctx.disagree('cd-array', f'central_difference on an array of shape {tuple(case["lead"]) + (poly.dim,)} '
+                             f'(shift {case["shift"]}): {why}', dict(case, impl=None if isinstance(got, tuple) else got.tolist()))
+            continue
         if not cm.allclose(impl, model, rtol=1e-9, atol=1e-12):
             ctx.disagree(name, f'{name}: implementation {impl} != model {[float(v) for v in model]}',
                          {'op': name, 'input': info, 'impl': [float(v) for v in impl],
@@ -319,14 +1396,74 @@ def search(ctx, broken):
         if e1 > 1e-2 or (e2 > 1e-10 and e1 / e2 < 3.0):
             ctx.violate('central_difference:order', f'gradient error {e1} at shift 1e-2, {e2} at 5e-3 (ratio {e1 / max(e2, 1e-300):.2f}, expected ~4)',
                         {'op': 'cd-order', 'x': x.tolist(), 'w': w.tolist(), 'e1': float(e1), 'e2': float(e2)})
-        # shape handling: (n, dim) input gives row-wise gradients
-        X = np.array([x, x * 0.5])
-        G = central_difference(fxn, X, 1e-3)
-        g0 = central_difference(fxn, x, 1e-3)
-        if G.shape != X.shape or not np.allclose(G[0], g0, rtol=1e-9, atol=1e-12):
-            ctx.violate('central_difference:shape', 'array-of-points gradient differs from the single-point gradient',
-                        {'op': 'cd-shape', 'x': x.tolist()})
+    _search_cd_arrays(ctx, rng, broken)
+    _search_paths(ctx, rng, broken)
     _search_relax(ctx, rng)
+
+
+def _smooth(w):
+    np = _np()
+
+    def fxn(v, w=w):
+        v = np.asarray(v, dtype=float)
+        return np.sin(w * v).sum(axis=-1) + np.exp(0.3 * v.sum(axis=-1))
+
+    def grad(v, w=w):
+        v = np.asarray(v, dtype=float)
+        return w * np.cos(w * v) + 0.3 * np.exp(0.3 * v.sum(axis=-1))[..., None]
+    return fxn, grad
+
+
+def _search_cd_arrays(ctx, rng, broken):
+    """gradient clause on coordinate arrays of every leading shape: polynomial energies against the exact value
+    (gradient + c_i shift^2), a sin/exp mix against its analytic gradient to second order in the shift."""
+    np = _np()
+    from atomman.mep.gradient import central_difference
+    for it in range(ctx.n(250, 3000) * (2 if broken else 1)):
+        case = _gen_cd_array(rng)
+        got, poly = _cd_array_call(case)
+        ctx.stats.case('oracle:cd-array', repr(case), sample={'op': 'cd-array', 'leading_shape': case['lead'],
+                                                             'dim': poly.dim, 'shift': case['shift']})
+        why = _cd_array_check(case, got, poly)
+        if why is not None:
+            shape = tuple(case['lead']) + (poly.dim,)
+            X = np.array(case['pts'], dtype=float).reshape(shape)
+            ctx.violate(f'central_difference:array{len(shape)}d', f'central_difference(f, X, shift={case["shift"]}) for the cubic f '
+                        f'{case["poly"]} and X ({case["container"]}) of shape {shape} = {X.tolist()}: {why}',
+                        dict(case, impl=None if isinstance(got, tuple) else got.tolist()))
+    for it in range(ctx.n(60, 600)):
+        d = rng.choice([1, 2, 3])
+        lead = rng.choice(_LEADING)
+        w = np.array([rng.uniform(0.5, 2) for _ in range(d)])
+        X = np.array([rng.uniform(-1, 1) * rng.choice([1.0, 3.0]) for _ in range(int(np.prod(lead, dtype=int)) * d)]).reshape(tuple(lead) + (d,))
+        fxn, grad = _smooth(w)
+        exact = grad(X)
+        info = {'op': 'cd-smooth', 'w': w.tolist(), 'X': X.tolist(), 'lead': list(lead)}
+        ctx.stats.case('oracle:cd-smooth', (tuple(lead), d, X.ravel().tolist()))
+        try:
+            g1, g2 = central_difference(fxn, X, 1e-2), central_difference(fxn, X, 5e-3)
+        except Exception as e:  # noqa
+            ctx.violate(f'central_difference:array{len(lead) + 1}d', f'central_difference on X of shape {X.shape} = {X.tolist()} '
+                        f'raised {type(e).__name__}: {e}', info)
+            continue
+        if g1.shape != X.shape:
+            ctx.violate(f'central_difference:array{len(lead) + 1}d', f'central_difference on X of shape {X.shape} returned shape '
+                        f'{g1.shape}', info)
+            continue
+        e1, e2 = np.abs(g1 - exact).max(), np.abs(g2 - exact).max()
+        if e1 > 1e-3 or (e2 > 1e-10 and e1 / e2 < 3.0):
+            k = np.unravel_index(np.abs(g1 - exact).argmax(), X.shape)
+            ctx.violate(f'central_difference:array{len(lead) + 1}d', f'sum(sin(w x)) + exp(0.3 sum x), w={w.tolist()}, X of shape '
+                        f'{X.shape} = {X.tolist()}: gradient error {e1:.3g} at shift 1e-2, {e2:.3g} at 5e-3 (ratio '
+                        f'{e1 / max(e2, 1e-300):.2f}, expected ~4); entry {tuple(int(i) for i in k)} is {g1[k]!r}, analytic {exact[k]!r}', info)
+
+
+def _search_paths(ctx, rng, broken):
+    """operation sequences on one path object; every read against the exact oracle of the tracked state and against
+    a freshly built path."""
+    for it in range(ctx.n(120, 1500) * (2 if broken else 1)):
+        ops = _gen_sequence(rng, rng.randint(3, 8))
+        _run_sequence(ctx, ops, 'oracle', f'sequence {it}')
 
 
 def _search_relax(ctx, rng):
@@ -375,9 +1512,32 @@ def _search_relax(ctx, rng):
                 ctx.violate('create_path:' + integ, f'create_path with {integ} options raised {type(e).__name__}: {e}', info)
                 continue
             try:
+                g_start, f_start = np.array(path.grad_energy()), np.array(path.force)   # reads before the relaxation
                 new = path.relax(verbose=False, **kw)
             except Exception as e:  # noqa
                 ctx.violate('relax:raises', f'relax raised {type(e).__name__}: {e}', info)
+                continue
+            if not np.array_equal(path.coord, coord):
+                ctx.violate('relax:mutates-self', f'relax changed the coordinates of the path it was called on ({integ})', info)
+                continue
+            # keep working with the same object: load the relaxed string into it and read again
+            try:
+                path.coord = new.coord
+                g_loaded, f_loaded, tau = np.array(path.grad_energy()), np.array(path.force), np.array(path.unittangent)
+                exact_g = grad(new.coord)
+                gtol = 1e-6 if integ == 'default' else 1e-12
+                if not np.allclose(g_loaded, exact_g, rtol=0, atol=gtol * (1 + np.abs(exact_g).max())):
+                    ctx.violate('relax:reload-grad', f'after loading the relaxed string into the path it came from ({integ}, k={k}, c={c}, '
+                                f'a={a}, N={nimg}, bend={bend}), grad_energy() differs from the analytic gradient at its coordinates by '
+                                f'{np.abs(g_loaded - exact_g).max():.3g} (it differs from the gradient on the initial string by '
+                                f'{np.abs(g_loaded - g_start).max():.3g})', info)
+                    continue
+                if not np.allclose(f_loaded, np.einsum('ij,ij->i', exact_g, tau), rtol=0, atol=gtol * 10 * (1 + np.abs(exact_g).max())):
+                    ctx.violate('relax:reload-force', f'after loading the relaxed string into the path it came from ({integ}), force is '
+                                f'not grad E . tangent at its coordinates', info)
+                    continue
+            except Exception as e:  # noqa
+                ctx.violate('relax:reload-raises', f'reading the path after coord = relaxed.coord raised {type(e).__name__}: {e}', info)
                 continue
             E = new.energy()
             top = int(np.argmax(E))
@@ -407,8 +1567,24 @@ def replay(ctx, payload):
         print('replay', op, 'impl', list(map(float, impl)), 'expected', [float(w) for w in want])
         if not cm.allclose(impl, want, rtol=1e-9, atol=1e-11):
             ctx.violate(f'{op}:taylor', 'replayed case still fails', r)
+    elif op == 'path-seq':
+        print('replay path operation sequence:', ' > '.join(_brief(o) for o in r['ops']))
+        _run_sequence(ctx, r['ops'], 'oracle', 'replay')
+        if ctx.driver is not None:
+            _run_sequence(ctx, r['ops'], 'lean', 'replay')
+        for f in ctx.violations + ctx.disagreements:
+            print('  still fails:', f.what[:400])
+        if not (ctx.violations or ctx.disagreements):
+            print('  no clause fails on the current tree')
+    elif op == 'cd-array':
+        got, poly = _cd_array_call(r)
+        why = _cd_array_check(r, got, poly)
+        print('replay central_difference on leading shape', r['lead'], '->', why or 'agrees with the exact gradient')
+        if why is not None:
+            ctx.violate(f'central_difference:array{len(r["lead"]) + 1}d', 'replayed case still fails: ' + why, r)
     else:
         search(ctx, True)
+
 
 MANIFEST = {
     'text': 'Euler/Runge-Kutta/central-difference/climbing-rate definitions are regenerated from the Python source on '
